@@ -44,6 +44,9 @@ type Cfg struct {
 	Forward   bool   `json:"forward"`
 	Fwdmd     bool   `json:"fwdmd"`
 	Hname     string `json:"hname"` // spelling of the name given to RequestIDHeaderOption
+	// how the option lists are written: "plain" every option once, "rev" the trace options the other way round,
+	// "dup" every setter twice (an overridden instance with another value first), discard patterns in between
+	Layout string `json:"layout"`
 }
 type Op struct {
 	Op string `json:"op"`
@@ -55,7 +58,7 @@ type Req struct {
 	RidSpell string `json:"ridSpell"` // spelling of the header name used by the sender
 	Trace    bool   `json:"trace"`
 	Parent   bool   `json:"parent"`
-	Dpath    bool   `json:"dpath"`
+	Dmatch   []bool `json:"dmatch"` // one per DiscardFromTrace pattern: does it match the path / method of this request
 	Script   []Op   `json:"script"`
 }
 
@@ -71,7 +74,7 @@ type Wire struct {
 	Ridc   Rid    `json:"ridc"`
 	Trace  string `json:"trace"`
 	Parent string `json:"parent"`
-	Dpath  bool   `json:"dpath"`
+	Dmatch []bool `json:"dmatch"`
 }
 type HopObs struct {
 	Q      int    `json:"q"`
@@ -116,9 +119,17 @@ const (
 	inboundTrace = "T0"
 	inboundSpan  = "P0"
 	inboundChars = "#$%&()*+:;<=>?@[]^{|}~!#$%&()*+:;<=>?@[]^{|}~!" // none of them occurs in a generated id
-	discardPath  = "/svc/Health"
-	plainPath    = "/svc/Work"
+	otherHeader  = "X-Overridden-Id"                                // given to an overridden RequestIDHeaderOption; no request carries it
 )
+
+// The i-th DiscardFromTrace pattern matches exactly the paths / full methods that carry the marker
+// segment "d<i>/" (path = /svc/ [d1/] [d2/] [d3/] Work).  The three patterns are written in three
+// styles: partial match, anchored prefix, alternation anchored at the end.
+var discardPatterns = []*regexp.Regexp{
+	regexp.MustCompile(`/d1/`),
+	regexp.MustCompile(`^/svc/(d1/)?d2/`),
+	regexp.MustCompile(`^/never$|/d3/Work$`),
+}
 
 // ---- one running case ---------------------------------------------------------------------
 
@@ -214,6 +225,34 @@ func spell(canon, how string) string {
 func (r *run) customName() string { return spell(customHeader, r.cfg.Hname) }
 
 func (r *run) ridOptions() []middleware.RequestIDOption {
+	o := r.ridOptionsOnce()
+	if r.cfg.Layout != "dup" {
+		return o
+	}
+	// every setter that is given is given twice: the first instance (another value) is overridden by the later one
+	var over []middleware.RequestIDOption
+	switch r.cfg.Trust {
+	case "on":
+		over = append(over, middleware.UseRequestIDOption(false))
+	case "off":
+		over = append(over, middleware.UseRequestIDOption(true))
+	case "custom":
+		over = append(over, middleware.RequestIDHeaderOption(otherHeader))
+	case "on_custom":
+		over = append(over, middleware.UseRequestIDOption(false), middleware.RequestIDHeaderOption(otherHeader))
+	case "custom_off":
+		over = append(over, middleware.RequestIDHeaderOption(otherHeader), middleware.UseRequestIDOption(true))
+	}
+	if r.limitGiven() {
+		over = append(over, middleware.RequestIDLimitOption(r.cfg.Limit+1))
+	}
+	return append(over, o...)
+}
+
+// limit 0 = "no limit": either the option is not given or it is given with 0
+func (r *run) limitGiven() bool { return r.cfg.Limit > 0 || r.cfg.Depth%2 == 0 }
+
+func (r *run) ridOptionsOnce() []middleware.RequestIDOption {
 	var o []middleware.RequestIDOption
 	switch r.cfg.Trust {
 	case "none":
@@ -230,8 +269,7 @@ func (r *run) ridOptions() []middleware.RequestIDOption {
 	default:
 		vio.Die("unknown trust mode %q", r.cfg.Trust)
 	}
-	// limit 0 = "no limit": either the option is not given or it is given with 0
-	if r.cfg.Limit > 0 || r.cfg.Depth%2 == 0 {
+	if r.limitGiven() {
 		// options are independent setters: the position of the limit among them must not matter (Middleware.tla has
 		// no notion of it); it is put first or last depending on the case so that both orders are exercised
 		if (r.cfg.Limit+r.cfg.Depth+len(r.cfg.Trust))%2 == 1 {
@@ -244,34 +282,93 @@ func (r *run) ridOptions() []middleware.RequestIDOption {
 }
 
 func (r *run) traceOptions() []middleware.TraceOption {
-	o := []middleware.TraceOption{
-		middleware.TraceIDFunc(func() string { r.nT++; return fmt.Sprintf("t%d", r.nT) }),
-		middleware.SpanIDFunc(func() string { r.nS++; return fmt.Sprintf("s%d", r.nS) }),
-	}
+	type opts = []middleware.TraceOption
+	tid := middleware.TraceIDFunc(func() string { r.nT++; return fmt.Sprintf("t%d", r.nT) })
+	sid := middleware.SpanIDFunc(func() string { r.nS++; return fmt.Sprintf("s%d", r.nS) })
+	// sampling options (SamplingPercent and MaxSamplingRate are documented as mutually exclusive: never both)
+	// and the overridden instances a "dup" layout puts in front of them (Middleware.tla: OtherPct, another sample size)
+	var samp, over opts
 	switch r.cfg.Smode {
 	case "default":
 	case "percent":
-		o = append(o, middleware.SamplingPercent(r.cfg.Pct))
+		other := 100
+		if r.cfg.Pct == 100 {
+			other = 0
+		}
+		samp = opts{middleware.SamplingPercent(r.cfg.Pct)}
+		over = opts{middleware.SamplingPercent(other)}
 	case "adaptive":
-		o = append(o, middleware.MaxSamplingRate(1), middleware.SampleSize(r.cfg.Ssize))
+		samp = opts{middleware.MaxSamplingRate(1), middleware.SampleSize(r.cfg.Ssize)}
+		// a SMALLER overridden sample size would end the warm-up early if it were the one in force
+		osize := 1
+		if r.cfg.Ssize == 1 {
+			osize = 2
+		}
+		over = opts{middleware.SampleSize(osize), middleware.MaxSamplingRate(9)}
 	default:
 		vio.Die("unknown sampling mode %q", r.cfg.Smode)
 	}
-	switch r.cfg.Discards {
-	case 0:
-	case 1:
-		o = append(o, middleware.DiscardFromTrace(regexp.MustCompile(`[Hh]ealth`)))
+	if r.cfg.Discards < 0 || r.cfg.Discards > len(discardPatterns) {
+		vio.Die("bad number of discard patterns %d", r.cfg.Discards)
+	}
+	// the discard patterns, always in the order of their positions
+	disc := make(opts, r.cfg.Discards)
+	for i := range disc {
+		disc[i] = middleware.DiscardFromTrace(discardPatterns[i])
+	}
+	var o opts
+	switch r.cfg.Layout {
+	case "", "plain":
+		o = append(append(append(o, tid, sid), samp...), disc...)
+	case "rev":
+		o = append(o, disc...)
+		for i := len(samp) - 1; i >= 0; i-- {
+			o = append(o, samp[i])
+		}
+		o = append(o, sid, tid)
+	case "dup":
+		// the patterns are spread over the list: before, between and after the setters
+		take := func(n int) {
+			if n > len(disc) {
+				n = len(disc)
+			}
+			o = append(o, disc[:n]...)
+			disc = disc[n:]
+		}
+		o = append(o, middleware.TraceIDFunc(func() string { return "overriddenT" }))
+		take(1)
+		o = append(o, over...)
+		o = append(o, middleware.SpanIDFunc(func() string { return "overriddenS" }), tid)
+		take(1)
+		o = append(append(o, samp...), sid)
+		take(len(disc))
 	default:
-		o = append(o, middleware.DiscardFromTrace(regexp.MustCompile(`^/never$`)), middleware.DiscardFromTrace(regexp.MustCompile(`/Health$`)))
+		vio.Die("unknown option layout %q", r.cfg.Layout)
 	}
 	return o
 }
 
-func (r *run) path(dp bool) string {
-	if dp {
-		return discardPath
+// path returns the path / full method matched by exactly the patterns at the positions set in dmatch.
+func (r *run) path(dmatch []bool) string {
+	if len(dmatch) != r.cfg.Discards {
+		vio.Die("request says which of %d patterns match it, the configuration has %d", len(dmatch), r.cfg.Discards)
 	}
-	return plainPath
+	p := "/svc/"
+	for i, m := range dmatch {
+		if m {
+			p += fmt.Sprintf("d%d/", i+1)
+		}
+	}
+	return p + "Work"
+}
+
+// matchOfPath reads the markers back from a path seen by a server (the patterns themselves are not consulted).
+func (r *run) matchOfPath(path string) []bool {
+	m := make([]bool, r.cfg.Discards)
+	for i := range m {
+		m[i] = strings.Contains(path, fmt.Sprintf("/d%d/", i+1))
+	}
+	return m
 }
 func (r *run) forwardHeader() string {
 	if r.cfg.Trust == "custom" || r.cfg.Trust == "on_custom" {
@@ -336,7 +433,7 @@ func (r *run) wireOfHeader(h http.Header, path string) (Wire, []string) {
 	cv, cp := get(customHeader)
 	return Wire{Rid: r.projHeader(sv, sp), Ridc: r.projHeader(cv, cp),
 		Trace: hdrTok(h.Get(httpm.TraceIDHeader)), Parent: hdrTok(h.Get(httpm.ParentSpanIDHeader)),
-		Dpath: path == discardPath}, []string{sv, cv}
+		Dmatch: r.matchOfPath(path)}, []string{sv, cv}
 }
 
 func (r *run) newHTTPServer(hop int) *httpServer {
@@ -462,7 +559,7 @@ func (r *run) wireOfMD(md metadata.MD, method string) (Wire, []string) {
 	tv, _ := get(grpcm.TraceIDMetadataKey)
 	pv, _ := get(grpcm.ParentSpanIDMetadataKey)
 	return Wire{Rid: r.projHeader(sv, sp), Ridc: r.projHeader(cv, cp), Trace: hdrTok(tv), Parent: hdrTok(pv),
-		Dpath: method == discardPath}, []string{sv, cv}
+		Dmatch: r.matchOfPath(method)}, []string{sv, cv}
 }
 
 func (r *run) newGRPCServer(hop int, stream bool) *grpcServer {
@@ -614,7 +711,7 @@ func runCase(cfg Cfg, reqs []Req) (r *run) {
 			if rq.Parent {
 				h.Set(httpm.ParentSpanIDHeader, inboundSpan)
 			}
-			r.http[0].serve(h, r.path(rq.Dpath))
+			r.http[0].serve(h, r.path(rq.Dmatch))
 		} else {
 			md := metadata.MD{}
 			switch rq.RidAt {
@@ -630,7 +727,7 @@ func runCase(cfg Cfg, reqs []Req) (r *run) {
 			if rq.Parent {
 				md.Set(grpcm.ParentSpanIDMetadataKey, inboundSpan)
 			}
-			r.grpc[0].serve(md, r.path(rq.Dpath))
+			r.grpc[0].serve(md, r.path(rq.Dmatch))
 		}
 	}
 	return r
@@ -659,7 +756,8 @@ func randCase(rn *rand.Rand) (Cfg, []Req) {
 	default:
 		c.Smode, c.Ssize = "adaptive", 1+rn.Intn(5)
 	}
-	c.Discards = rn.Intn(3)
+	c.Discards = rn.Intn(len(discardPatterns) + 1)
+	c.Layout = []string{"plain", "rev", "dup"}[rn.Intn(3)]
 	c.Forward = c.Depth > 1 && rn.Intn(2) == 0
 	c.Fwdmd = c.Depth > 1 && rn.Intn(2) == 0
 	c.Hname = "canon"
@@ -670,7 +768,12 @@ func randCase(rn *rand.Rand) (Cfg, []Req) {
 	reqs := make([]Req, n)
 	for i := range reqs {
 		q := Req{RidAt: []string{"none", "std", "custom"}[rn.Intn(3)], Trace: rn.Intn(3) == 0, Parent: rn.Intn(3) == 0,
-			Dpath: rn.Intn(4) == 0, Script: []Op{}}
+			Dmatch: make([]bool, c.Discards), Script: []Op{}}
+		if rn.Intn(2) == 0 { // every second request: each pattern matches with probability 1/2
+			for j := range q.Dmatch {
+				q.Dmatch[j] = rn.Intn(2) == 0
+			}
+		}
 		q.RidSpell = "canon"
 		if q.RidAt != "none" {
 			q.RidLen = rn.Intn(c.Limit + 3)
